@@ -1,7 +1,130 @@
-From Coq Require Import List ZArith Bool Arith Reals.
-Import ListNotations.
-From FV.C10 Require Import Model ProofsTables.
-From FV.C12 Require Import Model.
+(* C12 — signed cell-facet incidence obeys the discrete divergence theorem.
+   Statements only.  The face tables (FV.C10.gen.FaceTables) are regenerated
+   from /repo on every run.
 
-Theorem C12_tables_closed : forall t, table_closedb (used_cols t) (table t) = true.
-Proof. exact table_closed_each. Qed.
+   Model (C12/Model.v on top of C10/Model.v):
+     reps m      first listed face of every node set (functions.remove_duplicates)
+     facets m    the facet mesh: reps in np.unique order, triangles then quads
+     rel e f     cell e contains all nodes of facet f  (relative incidence,
+                 minimum_n_sharing=None)
+     sign        sign of (facet centre - cell centre) . normal  =  sign of
+                 outward2 (cell points) (facet points), >= 0 -> +1
+   Hypotheses (boolean predicates of the mesh, Prop for the coordinates):
+     wf_mesh, oriented_conforming   as in C10
+     cells_meet_in_faces m   a cell containing all nodes of a facet has it as a face
+                             (two cells meet in a common face, edge or vertex)
+     cell_outward pos e      "convex cell": the vertex mean is strictly inside every
+                             face plane, faces in table orientation; holds for every
+                             positive tetrahedron (C12_tet_cells_convex) and every
+                             positively oriented affine image of a reference cell
+                             (C12_affine_cells_convex) *)
+From Coq Require Import List ZArith Bool Arith Reals Lra.
+Import ListNotations.
+From FV.C10 Require Import Model Groups ProofsTables ProofsGeom.
+From FV.C12 Require Import Model Reps ProofsGeom Proofs.
+
+(* every cell is incident to exactly its own faces *)
+Theorem C12_inc_own_faces :
+  forall m, cells_meet_in_faces m = true ->
+  forall e f, In e (elems m) -> In f (reps m) ->
+    rel e f = existsb (same_face f) (elem_faces e).
+Proof. exact inc_own_faces. Qed.
+
+(* ... a cell is always incident to the facets on its own faces (no hypothesis) *)
+Theorem C12_own_faces_incident :
+  forall e f, existsb (same_face f) (elem_faces e) = true -> rel e f = true.
+Proof. exact own_face_rel. Qed.
+
+(* every facet is incident to one cell (boundary) or two cells (interior):
+   as many as there are listings of its node set *)
+Theorem C12_facet_cells :
+  forall m, wf_mesh m = true -> cells_meet_in_faces m = true -> oriented_conforming m = true ->
+  forall f, In f (reps m) ->
+    let n := length (filter (fun e => rel e f) (elems m)) in
+    n = occ same_face f (all_faces m) /\ (n = 1 \/ n = 2).
+Proof. exact facet_cells. Qed.
+
+(* the facet mesh lists every node set of a face exactly once *)
+Theorem C12_facets_are_reps :
+  forall m, Permutation.Permutation (facets m) (reps m) /\ NoDup (reps m).
+Proof.
+  intro m. split; [apply facets_perm |].
+  rewrite reps_greps. apply (greps_NoDup same_face ProofsSurface.same_face_refl
+                               ProofsSurface.same_face_sym ProofsSurface.same_face_trans).
+Qed.
+
+(* sign = +1 exactly on the cell's own (outward) orientation, -1 on its reversal *)
+Theorem C12_sign_is_orientation :
+  forall pos e, cell_outward pos e ->
+  forall h, In h (elem_faces e) ->
+    sgnR (odotR pos e h) = 1%R
+    /\ (forall g, is_reversal h g = true -> sgnR (odotR pos e g) = (-1)%R).
+Proof. exact sign_is_orientation. Qed.
+
+(* an interior facet is seen with opposite signs by its two cells *)
+Theorem C12_interior_opposite :
+  forall pos m, oriented_conforming m = true ->
+  forall f g, In [f; g] (groups same_face (all_faces m)) ->
+  forall e1 e2, In f (elem_faces e1) -> In g (elem_faces e2) ->
+    cell_outward pos e1 -> cell_outward pos e2 ->
+    sgnR (odotR pos e1 f) = 1%R /\ sgnR (odotR pos e2 f) = (-1)%R.
+Proof. exact interior_opposite. Qed.
+
+(* for each cell the signed area vectors of its facets sum to zero *)
+Theorem C12_div_area :
+  forall pos m, wf_mesh m = true -> cells_meet_in_faces m = true -> oriented_conforming m = true ->
+  forall e, In e (elems m) -> cell_outward pos e ->
+    vsum ROps (map (signed_area pos e) (filter (rel e) (facets m))) = (0, 0, 0)%R.
+Proof. exact div_area. Qed.
+
+(* one third of the signed sum of area x (normal . facet centre) is the cell
+   volume (femio's default volume kernel of the cell type: exact for tets) *)
+Theorem C12_div_volume :
+  forall pos m, wf_mesh m = true -> cells_meet_in_faces m = true -> oriented_conforming m = true ->
+  forall e, In e (elems m) -> cell_outward pos e ->
+    sumT ROps (map (div_term pos e) (filter (rel e) (facets m))) = (elem_vol24 ROps pos e / 24)%R.
+Proof. exact div_volume. Qed.
+
+(* planar-faced hexahedra: that volume is also the linear (5-tetrahedra)
+   volume, i.e. it does not depend on how the faces are triangulated *)
+Theorem C12_hex_planar_volume : forall p0 p1 p2 p3 p4 p5 p6 p7 : RV3,
+  planarity p0 p1 p5 p4 = 0%R -> planarity p0 p3 p2 p1 = 0%R -> planarity p1 p2 p6 p5 = 0%R ->
+  planarity p2 p3 p7 p6 = 0%R -> planarity p3 p0 p4 p7 = 0%R -> planarity p4 p5 p6 p7 = 0%R ->
+  (elem_vol24_pts ROps Hex [p0; p1; p2; p3; p4; p5; p6; p7] / 24
+   = hex_linear6 p0 p1 p2 p3 p4 p5 p6 p7 / 6)%R.
+Proof. exact hex_planar_volume. Qed.
+
+(* the convex-cell hypothesis holds for positive tetrahedra and for positively
+   oriented affine images of the reference cells *)
+Theorem C12_tet_cells_convex : forall (pos : Z -> RV3) i c0 c1 c2 c3,
+  (0 < tet_like ROps (pos c0) (pos c1) (pos c2) (pos c3))%R ->
+  cell_outward pos (Tet, i, [c0; c1; c2; c3]).
+Proof. exact tet_cell_outward. Qed.
+
+Theorem C12_affine_cells_convex : forall t (a : affine), (0 < detM a)%R ->
+  forall f, In f (table t) ->
+    (0 < outward2 ROps (map (aff a) (ref_cell t)) (pick_pts (map (aff a) (ref_cell t)) f))%R.
+Proof. exact affine_cell_outward. Qed.
+
+(* non-vacuity: two positive tetrahedra glued along a face, sparse unsorted ids *)
+Definition ex_mesh : mesh :=
+  {| m_nodes := [40; 7; 19; 3; 88]%Z;
+     m_blocks := [(Tet, [(5, [7; 19; 3; 40]); (2, [19; 7; 3; 88])]%Z)] |}.
+Definition ex_pos (i : Z) : RV3 :=
+  if Z.eqb i 7 then (0, 0, 0)%R else if Z.eqb i 19 then (1, 0, 0)%R
+  else if Z.eqb i 3 then (0, 1, 0)%R else if Z.eqb i 40 then (0, 0, 1)%R else (0, 0, -1)%R.
+Example C12_hypotheses_satisfiable :
+  wf_mesh ex_mesh = true /\ oriented_conforming ex_mesh = true /\ cells_meet_in_faces ex_mesh = true
+  /\ length (facets ex_mesh) = 7
+  /\ (forall e, In e (elems ex_mesh) -> cell_outward ex_pos e).
+Proof.
+  split; [vm_compute; reflexivity |]. split; [vm_compute; reflexivity |].
+  split; [vm_compute; reflexivity |]. split; [vm_compute; reflexivity |].
+  intros e He. simpl in He. destruct He as [<- | [<- | []]];
+    apply tet_cell_outward; cbv [ex_pos Z.eqb Pos.eqb tet_like det3 dot cross vsub vx vy vz fst snd ROps sub mul add];
+    lra.
+Qed.
+
+Print Assumptions C12_div_area.
+Print Assumptions C12_div_volume.
+Print Assumptions C12_facet_cells.
